@@ -14,7 +14,7 @@ def vsa(vendor, subs, trailing=b''):
         b += bytes([t, len(v) + 2]) + v
     return b + trailing
 
-def generate(rng, tier):
+def generate_core(rng, tier):
     ops = []
     # exhaustive lengths 0..2
     ops.append('op decttl -')
@@ -75,3 +75,8 @@ def generate(rng, tier):
             ops.append('op addttl %d %d %d %s' % (t0, t1, rng.choice([1, 2, 7, 255]), toks))
     cases += batch(ops, 'chk', 200)
     return cases
+
+def generate(rng, tier):
+    """the component-level cases, then the clause seen through the whole request/reply pipeline"""
+    import pipeline, focus
+    return generate_core(rng, tier) + focus.loop_cases(rng, 240 if tier == 'thorough' else 24) + pipeline.cases(rng, 300 if tier == 'thorough' else 20, nops=10)
